@@ -535,9 +535,11 @@ func runGram(c *explore.Ctx, side *gramSide) {
 	if side.id == "C05" {
 		sepSub("separators", c.Pick(5, 7), 2)
 		mutProfiles(c, side, g, gen.ExecProfiles)
+		sepProfiles(c, side, g, gen.ExecProfiles)
 	} else {
 		sepSub("separators", c.Pick(4, 5), 2)
 		mutProfiles(c, side, g, gen.SDLProfiles)
+		sepProfiles(c, side, g, gen.SDLProfiles)
 		sourcesSub(c, side, g)
 	}
 	corpusSub(c, side, g)
@@ -676,6 +678,65 @@ func mutProfiles(c *explore.Ctx, side *gramSide, g *refgrammar.Grammar, docs []s
 					run(m)
 				}
 				run(append(append(append([]string{}, toks[:p]...), alpha[a].Text), toks[p:]...))
+			}
+		}
+	}
+	s.WallS = time.Since(t0).Seconds()
+}
+
+// sepProfiles: the long profile documents under every single non-default separator at
+// every gap, and every pair of separators at neighbouring gaps.
+func sepProfiles(c *explore.Ctx, side *gramSide, g *refgrammar.Grammar, docs []string) {
+	menu := gen.Separators
+	s := c.Sub("separators-profiles", fmt.Sprintf("%d profile documents of the %s grammar containing every construct, with one non-default separator from a menu of %d at every gap, and every pair of separators at two neighbouring gaps", len(docs), side.name, len(menu)),
+		"parser accepts and builds the derivation tree whatever ignored tokens stand between the tokens", "every rendering")
+	if s == nil {
+		return
+	}
+	t0 := time.Now()
+	idx := 0
+	for _, doc := range docs {
+		toks := tokenTextsNoComments(doc)
+		gt, ok := gramToks(strings.Join(toks, " "))
+		if !ok {
+			continue
+		}
+		want := g.Parse(gt)
+		if !want.OK {
+			panic("profile document is not in the reference language: " + doc)
+		}
+		s.States++
+		base := strings.Join(toks, " ")
+		try := func(dev map[int]string) {
+			idx++
+			if idx%c.NShards != c.Shard {
+				return
+			}
+			text := renderGapsSep(toks, dev)
+			if !sameTokens(text, toks) {
+				s.Skipped++
+				return
+			}
+			s.Transitions++
+			gramCase(c, s, side, g, gramInput{Text: text, Base: base}, &want, false)
+		}
+		for a := 0; a <= len(toks); a++ {
+			if c.Expired() {
+				s.Cap("deadline")
+				return
+			}
+			for _, x := range menu {
+				if x == " " {
+					continue
+				}
+				try(map[int]string{a: x})
+				if a < len(toks) {
+					for _, y := range menu {
+						if y != " " {
+							try(map[int]string{a: x, a + 1: y})
+						}
+					}
+				}
 			}
 		}
 	}
